@@ -6,6 +6,10 @@
      wf_jsonb s c       the JSON writer's premise (Json.v; C02): every structure the JSON traversal finds and every sofa
                         byte array carries its id in c — i.e. c is a CAS after a save or a load
      ids_distinctb s c  sofa ids, ids of the structures found and of the sofa byte arrays are pairwise distinct (C04 JSON half)
+     arrays_privateb s c  the byte array of a sofa belongs to that sofa alone: no second sofa refers to it and the JSON traversal
+                        does not find it (it is neither indexed nor referenced by a feature).  The conversion theorems are
+                        proved for such CASes; shared / indexed / referenced sofa arrays (d1bc860, d94ad6a) are covered by the
+                        C02 / C04 / C05 theorems and compared per case by CorrC16
      refs_wfb s c       no structure with id 0, the schema calls exactly ArrayBase subtypes arrays, `sofa` slots hold sofas
      slots_declb s h    an object has no attribute besides the features of its type (the generated classes have __slots__) *)
 From Cassis Require Import Base Heap Schema Canon Reach JsonDoc Json.
@@ -15,5 +19,12 @@ Open Scope Z_scope.
 Definition slots_declb (s : schema) (h : heap) : bool :=
   forallb (fun p => forallb (fun nv => has_feat s (o_type (snd p)) (fst nv)) (o_slots (snd p))) h.
 
+Definition arrays_privateb (s : schema) (c : cas) : bool :=
+  nodupN (sofa_arrays c)
+  && match find_all_fs true s c with
+     | Ok w => forallb (fun io => negb (omem (snd io) (sofa_arrays c))) (w_all w)
+     | _ => false end.
+
 Definition wf_convb (s : schema) (c : cas) : bool :=
-  Xmi.wf_inb s c && XmiLoad.schema_okb s && wf_jsonb s c && ids_distinctb s c && refs_wfb s c && slots_declb s (c_heap c).
+  Xmi.wf_inb s c && XmiLoad.schema_okb s && wf_jsonb s c && ids_distinctb s c && refs_wfb s c && slots_declb s (c_heap c)
+  && arrays_privateb s c.
